@@ -26,7 +26,8 @@ HermCores(kind, G, dims) ==
 
 EigIsland(c) ==
     LET G == FillCores(IF c.cplx THEN "complex" ELSE "real", c.seed, OpShape(c.dims, c.rg))
-        Cg == FillCores(IF c.cplx THEN "complex" ELSE "real", c.seed + 7, OpShape(c.dims, 1))
+        \* seed 2: a complex Hermitian positive-definite right-hand operator also for real A and a real guess (mixed dtypes)
+        Cg == FillCores(IF c.cplx \/ c.seed = 2 THEN "complex" ELSE "real", c.seed + 7, OpShape(c.dims, 1))
     IN  [A |-> HermCores(c.kind, G, c.dims),
          B |-> IF c.gen THEN AddCores(MatMulCores(AdjCores(Cg), Cg), EyeCores(c.dims, 1)) ELSE <<>>,
          \* seed 2: real-valued (real dtype) guesses also for complex operators (mixed dtypes)
